@@ -338,7 +338,7 @@ theorem gen_ct_serialize_produces_enc : type_of% @HC.GS.c14g_ct_serialize := @HC
 /-- reduced residues are representable (the `fit` clause of `CtShape` from `limit_width`) -/
 theorem gen_ct_shape_fit_of_reduced : type_of% @HC.GS.gd_fit_of_reduced := @HC.GS.gd_fit_of_reduced
 
-/-- its refusals: shape mismatch before anything is written; scheme `None` after 41 header bytes -/
+/-- its refusals: unknown parms id (panic) and shape mismatch (`InvalidData`) before anything is written; scheme `None` after 41 header bytes -/
 theorem gen_ct_serialize_full_refusals : type_of% @HC.GS.c14g_ct_serialize_full_refusals := @HC.GS.c14g_ct_serialize_full_refusals
 
 /-! non-vacuity of the phase-4i statements -/
@@ -348,25 +348,26 @@ example : (HC.GenS.params_serialize HC.GS.idealStream ⟨1, 8, [17, 257], 65537,
     (.ok 42, [1, 8,0,0,0,0,0,0,0, 2,0,0,0,0,0,0,0, 17,0,0,0,0,0,0,0, 1,1,0,0,0,0,0,0, 1,0,1,0,0,0,0,0, 1]) := by rfl
 example : HC.GenS.params_deserialize (HC.GenS.params_serialize HC.GS.idealStream ⟨1, 8, [17, 257], 65537, true⟩ []).2
     = .ok (⟨1, 8, [17, 257], 65537, true⟩, []) := by rfl
-example : HC.GenS.ct_serialized_size ⟨[1, 2, 3, 4], 3, 8, [17, 65537]⟩ ⟨[1, 2, 3, 4], 2, true, 0, 1, false, [], fun _ => [], fun _ _ => [], 2, 8⟩ = .ok (32 + 8 + 1 + 8 + 1 + 2 * 8 * 1 + 2 * 8 * 3) := by rfl
-example : HC.GenS.ct_serialized_terms_size ⟨[1, 2, 3, 4], 1, 8, [17]⟩ ⟨[1, 2, 3, 4], 0, true, 0, 1, false, [], fun _ => [], fun _ _ => [], 1, 8⟩ 3 = .error .overflow := by rfl
+example : HC.GenS.ct_serialized_size ⟨[⟨[1, 2, 3, 4], 3, 8, [17, 65537]⟩], 5, 8⟩ ⟨[1, 2, 3, 4], 2, true, 0, 1, false, [], fun _ => [], fun _ _ => [], 2, 8⟩ = .ok (32 + 8 + 1 + 8 + 1 + 2 * 8 * 1 + 2 * 8 * 3) := by rfl
+example : HC.GenS.ct_serialized_terms_size ⟨[⟨[1, 2, 3, 4], 1, 8, [17]⟩], 5, 8⟩ ⟨[1, 2, 3, 4], 0, true, 0, 1, false, [], fun _ => [], fun _ _ => [], 1, 8⟩ 3 = .error .overflow := by rfl
 /-- `serialize_full` of a seeded BGV ciphertext at a level with one modulus, N = 2: the hypotheses of `gen_ct_serialize_full_produces_enc`
     hold and 32 + 8 + 1 + 8 + 8 + (2 + 1 + 8)·8 = 145 bytes are produced -/
 example :
     let ctx : Ctx := ⟨[⟨[1, 2, 3, 4], 3, 2, [17]⟩], 5, 2⟩
     let c : CtFull := ⟨[1, 2, 3, 4], 2, false, 4607182418800017408, 1, [3, 4, 18446744073709551615, 1, 2, 3, 4, 5, 6, 7, 8]⟩
-    c.pid.length = 4 ∧ ((ctx.find c.pid).getD noLevel).scheme = 3 ∧ fullSent ((ctx.find c.pid).getD noLevel) c = 11 ∧
-    (HC.GenS.ct_serialize_full HC.GS.idealStream ((ctx.find c.pid).getD noLevel) (HC.GS.ctvOfFull ((ctx.find c.pid).getD noLevel) c) []).1 = .ok 145 := by
-  refine ⟨rfl, rfl, rfl, rfl⟩
+    let lv : Level := ⟨[1, 2, 3, 4], 3, 2, [17]⟩
+    ctx.find c.pid = some lv ∧ c.pid.length = 4 ∧ lv.scheme = 3 ∧ fullSent lv c = 11 ∧
+    (HC.GenS.ct_serialize_full HC.GS.idealStream ctx (HC.GS.ctvOfFull lv c) []).1 = .ok 145 := by
+  refine ⟨rfl, rfl, rfl, rfl, rfl⟩
 /-- compact format, seeded BFV ciphertext, two moduli (1 and 2 bytes wide), N = 2: `CtShape` holds and
     32 + 8 + 1 + 1 + 2·1 + 2·2 + 64 = 112 bytes are produced, equal to the model's encoding -/
 example :
     let ctx : Ctx := ⟨[⟨[1, 2, 3, 4], 1, 2, [17, 257]⟩], 5, 2⟩
     let c : Ct := ⟨[1, 2, 3, 4], 2, true, 4607182418800017408, 1, [[[3, 16], [256, 7]]], [1, 2, 3, 4, 5, 6, 7, 8]⟩
-    HC.GS.CtShape ((ctx.find c.pid).getD noLevel) c ∧
-    HC.GenS.ct_serialize HC.GS.idealStream ((ctx.find c.pid).getD noLevel) (HC.GS.ctvOfCt ((ctx.find c.pid).getD noLevel) c) []
-      = (.ok 112, (ctC ctx (fun _ _ => [])).enc c) := by
-  refine ⟨⟨rfl, ?_, ?_, rfl⟩, by rfl⟩
+    let lv : Level := ⟨[1, 2, 3, 4], 1, 2, [17, 257]⟩
+    ctx.find c.pid = some lv ∧ HC.GS.CtShape lv c ∧
+    HC.GenS.ct_serialize HC.GS.idealStream ctx (HC.GS.ctvOfCt lv c) [] = (.ok 112, (ctC ctx (fun _ _ => [])).enc c) := by
+  refine ⟨rfl, ⟨rfl, ?_, ?_, rfl⟩, by rfl⟩
   · intro p hp
     have : p = [[3, 16], [256, 7]] := by simpa using hp
     subst this
